@@ -1,6 +1,7 @@
 // Real-threads stress phase of C10 ("no call blocks forever" under real parallelism).
 //
-// testing/synctest runs the goroutines of a bubble under a deterministic scheduler: a check-then-act
+// Under testing/synctest the harness issues every action at a quiescent point (synctest.Wait), and the
+// goroutines of a bubble do not run in parallel: a check-then-act
 // race inside one library call (two TrySend callers both seeing the last free slot of the buffer, one
 // of them then sitting in a bare `s.c <- x`) never shows there. This phase runs the same clauses on
 // real threads, outside any bubble:
@@ -13,6 +14,8 @@
 //	drain    N senders Send their values, a receiver goroutine reads until Next fails; when every Send
 //	         has returned nil the sender is closed (nil or an error): Next must deliver every value
 //	         (per sender in order, once) and then report, and must return at all
+//	outcome  (a phase of its own, third child; outcome_test.go) small pre/par/post scenarios whose result
+//	         tuples must be outcomes of the Lean LTS — correspondence, not a monitor
 //	closerace  (a phase of its own, second child) the sender's Close racing calls that are in
 //	         progress: a few dozen to a few thousand goroutines parked in Send (the runtime's close
 //	         has to wake every one of them, which takes it a while), Close(err) / Close(nil) while a
@@ -60,7 +63,7 @@ func TestMain(m *testing.M) {
 
 // stressCfg is one round's configuration.
 type stressCfg struct {
-	Kind  string // trysend | send | drain | closerace
+	Kind  string // trysend | send | drain | closerace | outcome (How = the encoded scenario, outcome_test.go)
 	N     int    // goroutines calling TrySend / Send
 	B     int    // buffer size
 	Calls int    // calls per goroutine
@@ -523,6 +526,9 @@ func stressChild(spec string) {
 	if runtime.GOMAXPROCS(0) < 4 {
 		runtime.GOMAXPROCS(4) // the races need goroutines that really run at the same time
 	}
+	if f[3] == "outcome" || (isFixed && fixed.Kind == "outcome") {
+		outcomeChild(seed, rounds, ms, fixed, isFixed) // does not return
+	}
 	start := time.Now()
 	r, failing := 0, 0
 	for ; r < rounds && time.Since(start) < time.Duration(ms)*time.Millisecond; r++ {
@@ -569,6 +575,7 @@ type stressOutcome struct {
 	finds    []stressFind // the first finding of every kind
 	dump     []string
 	harness  string // non-empty: the child could not be run / ended in a way that is not a verdict
+	stdout   string
 	perKind  map[string]int
 	duration time.Duration
 }
@@ -613,6 +620,7 @@ func runStressChild(seed uint64, rounds, ms int, fixed string) stressOutcome {
 	err = cmd.Wait()
 	killed := !backstop.Stop()
 	o.duration = time.Since(start)
+	o.stdout = stdout.String()
 	failed := false
 	for _, l := range strings.Split(stdout.String(), "\n") {
 		switch {
@@ -679,6 +687,7 @@ func runStressChild(seed uint64, rounds, ms int, fixed string) stressOutcome {
 			"send":      "the receiver was closed / the sender was closed / every context had expired, so every Send had to return",
 			"drain":     "every Send had returned and the sender was closed, so Next had to report",
 			"closerace": "the sender was closed, so every Send and every Next had to return",
+			"outcome":   "the sender was closed, so every Send, TrySend and Next had to return",
 		}[o.lastCfg.Kind]
 		o.add(stuck, fmt.Sprintf("round %d (%s): a call never returned — the Go runtime found every goroutine of the process asleep (%s); blocked: %s",
 			o.lastR, o.lastCfg, cond, strings.Join(o.dump, "; ")))
@@ -708,6 +717,8 @@ func (c *checker) stress(env vlib.Env) {
 		ms, rounds = 6000, 6000
 	}
 	c.stressPhase(env, "closerace", rounds, ms, "closerace")
+	// result tuples of small races on real threads vs. the outcome sets of the Lean LTS (outcome_test.go)
+	c.outcomePhase(env)
 }
 
 func (c *checker) stressPhase(env vlib.Env, mode string, rounds, ms int, tag string) {
